@@ -139,6 +139,16 @@ def check_program(shard, prog, argv, choices_list, cut_sets=(), trailing=b"ab"):
             runs_n, runs_s = res
             for cuts, chunks, rn, rs in zip(scheds, chunk_lists, runs_n, runs_s):
                 shard.event("evaluations")
+                # P6 under this chunking too: codes and pointer positions are those of the abstract machine fed the same chunks
+                try:
+                    want_k, _ = trace.am_calls(m, chunks, call_end=info.eof, indirect=True)
+                except (am_mod.Undefined, am_mod.Spin):
+                    want_k = None
+                if want_k is not None:
+                    diff = trace.first_diff(want_k, [c for c in rn if c.kind != "free"], with_state=True, with_off=True)
+                    if diff:
+                        raise Failure("c10:c-vs-am", "input=%s chunks=%r\n%s" % (d.hex(), [c.hex() for c in chunks], diff[1]),
+                                      dict(replay, input=d.hex(), cuts=list(cuts)))
                 for label, r in (("non-strict", rn), ("strict-done", rs)):
                     probs = check_history(r, chunks, info, label)
                     if probs:
@@ -252,7 +262,12 @@ def compare_strict(rn, rs, info):
 
 @st.composite
 def case_strategy(draw):
-    mode = draw(st.sampled_from(["plain", "plain", "yield", "yield", "eof", "lexer", "yield-tail"]))
+    mode = draw(st.sampled_from(["plain", "plain", "yield", "yield", "eof", "lexer", "yield-tail", "break-loop"]))
+    if mode == "break-loop":
+        # a loop left by a break (seven positions) with more input in the same chunk: codes and pointer under every chunking
+        prog, datas = draw(gen.break_loop_program())
+        cuts = draw(st.lists(st.lists(st.integers(1, 40), min_size=1, max_size=5), min_size=1, max_size=3))
+        return prog, list(prog.argv) + draw(options.repr_options(indirect=True)), datas[:5], cuts
     if mode == "yield-tail":
         from checks.c02 import yield_tail_program
         prog = draw(yield_tail_program())
